@@ -153,12 +153,12 @@ Final(env, n) == env[CHOOSE i \in 1..Len(env) : env[i][1] = n /\ \A j \in (i + 1
 
 \* ---------------------------------------------------------------- programs
 \* a case: [pat, guard]; guards: "none", "T", "F", "stmt-T", "stmt-F" (a guard that needs statements),
-\* "x1": (= x <<"int",1>>) -- needs x bound by the pattern
+\* "x1": (= x <<"int",1>>) -- needs x bound by the pattern; "stmt-x1": the same, needing statements
 GuardVal(g, env) ==
   CASE g \in {"none", "T", "stmt-T"} -> TRUE
     [] g \in {"F", "stmt-F"} -> FALSE
-    [] g = "x1" -> Final(env, "x") = <<"int", 1>>
-GuardOK(c) == c.guard = "x1" => "x" \in Names(c.pat)
+    [] g \in {"x1", "stmt-x1"} -> Final(env, "x") = <<"int", 1>>
+GuardOK(c) == c.guard \in {"x1", "stmt-x1"} => "x" \in Names(c.pat)
 
 ProgValid(prog) ==
   /\ \A i \in 1..Len(prog.cases) : ValidCasePattern(prog.cases[i].pat)
@@ -198,7 +198,7 @@ Level1 ==
   \cup {<<"cls", c, ps, <<>>>> : c \in {"int", "str", "list"}, ps \in SeqsUpTo({<<"cap", "x">>, <<"lit", I(1)>>}, 1)}
   \cup {<<"or", <<a, b>>>> : a \in Atoms, b \in Atoms}
   \cup {<<"as", a, "z">> : a \in Atoms}
-Guards == {"none", "T", "F", "stmt-T", "stmt-F", "x1"}
+Guards == {"none", "T", "F", "stmt-T", "stmt-F", "x1", "stmt-x1"}
 
 FileProgs == IF Mode = "file" THEN ndJsonDeserialize(IOEnv.PROG_FILE) ELSE <<>>
 VARIABLE prog
